@@ -6,7 +6,9 @@ The tables of `Gen/Writes.lean` are regenerated from the source on every run by 
 abtem/measurements.py and abtem/array.py, the statements that write through the caller's `atoms` object or the
 receiver's observable state (`metadata`, `array`, ensemble axes metadata) — directly, through an alias
 (`cell = atoms.cell; cell[...] = …`) or through a mutating method (`atoms.wrap()`, `self.metadata.update(…)`) —
-before the name has been rebound to a copy.  All statements below are `_partial`: they are facts about the bodies of
+before the name has been rebound to a copy; one call level deep (an owned name passed to a same-file function whose own
+body writes through that parameter), and through fields in which a constructor stored the caller's object.  All
+statements below are `_partial`: they are facts about the bodies of
 the listed functions (an over-approximation of *direct* writes); writes performed inside callees (ASE, NumPy
 `out=` arguments, functions of other modules) are not seen by the extraction and are covered only by the
 before/after snapshots of the conformance oracle.
@@ -38,5 +40,17 @@ theorem element_wise_methods_listed_partial :
 /-- among the methods of abtem/array.py only the explicit setter `set_ensemble_axes_metadata` writes to the receiver -/
 theorem array_object_methods_no_receiver_writes_partial :
     offenders arrayObjectWrites = ["ArrayObject.set_ensemble_axes_metadata"] := by decide +kernel
+
+/-- Potential / frozen-phonon / Bloch-wave classes (abtem/potentials/iam.py, abtem/inelastic/phonons.py,
+abtem/bloch/dynamical.py): no function or method receiving `atoms` writes through it, directly or through a
+same-file callee; and where a constructor stores the caller's object in a field without copying
+(`self._atoms = atoms`), no method of the class writes through that field. -/
+theorem potential_classes_no_caller_writes_partial :
+    offenders potentialWrites = [] ∧ offenders phononWrites = [] ∧ offenders blochWrites = [] := by decide +kernel
+
+/-- the entry points named by the property are in these tables -/
+theorem potential_entry_points_listed_partial :
+    writesOf potentialWrites "Potential.__init__" = some [] ∧ writesOf potentialWrites "_validate_frozen_phonons" = some [] ∧
+    writesOf phononWrites "FrozenPhonons.__init__" = some [] := by decide +kernel
 
 end AbtemVerif.Props.C32
